@@ -7,8 +7,8 @@ def gen_core(rng, guard=True):
     for _ in range(rng.randint(0, 4)):
         n = gens.rand_name(rng, 8)
         if guard:
-            # names the theorem covers: non-empty, no NUL, not readable as an integer, not starting with a digit (C11 findings)
-            if not n or 0 in n or n[:1].isdigit() or n[:1] in (b"-", b"+") and n[1:].isdigit():
+            # names the theorem covers (TypeNameOK): non-empty, no NUL, not readable as a signed integer (C11 finding on getTypeName)
+            if not n or 0 in n or n.isdigit() or n[:1] in (b"-", b"+") and n[1:].isdigit():
                 n = b"T" + n.replace(b"\x00", b"")
         if n in seen or not n or 0 in n:
             continue
@@ -16,7 +16,7 @@ def gen_core(rng, guard=True):
     gs, seen = [], set()
     for _ in range(rng.randint(0, 4)):
         n = gens.rand_name(rng, 8)
-        if guard and (not n or 0 in n or n[:1].isdigit() and not n.isdigit() or n[:1] == b"-" and set(n[1:]) <= {48} and len(n) > 1):
+        if guard and (not n or 0 in n):
             n = b"g" + n.replace(b"\x00", b"")
         if n in seen or not n or 0 in n:
             continue
